@@ -34,6 +34,7 @@ def tcpTable : List (GSite × Role) :=
     (⟨"onListener", "gaugeInc", "6144a05b"⟩, .prim "acceptFresh: gauge"),
     (⟨"onListener", "acceptCb", "c86245ed"⟩, .prim "acceptFresh: accept callback"),
     (⟨"doConnect", "closeCb", "1fce4c5b"⟩, .close .tlsRefused),
+    (⟨"doConnect", "closeCb", "eac47871"⟩, .close .resolveThrow),
     (⟨"doConnect", "closeCb", "7b49ac7a"⟩, .close .resolveTimeout),
     (⟨"doConnect", "closeCb", "5840638a"⟩, .close .resolveFail),
     (⟨"doConnect", "closeCb", "3f03fe11"⟩, .close .refused),
@@ -139,14 +140,36 @@ def udpEnqueue : List String := ["lock", "closedCheck", "retFalse", "push", "ret
 handshake): the completion of the connect is always reported - what the environment contract of T3 rests on -/
 def tcpConnectEpollMask : List String := ["EPOLLIN", "EPOLLOUT"]
 def tcpUpdateInterest : List String := ["base", "ifHandshake", "orTlsWantWrite", "else", "orConnectPending", "ifNeedWrite", "outBit", "modEpoll"]
-/-- order (and locks) of Transport::Impl's close handler: connectSync suppression, global callback, observers (copy, erase, iterate),
-tombstone, user data -/
-def fanout : List String := ["lockSync", "pendingFind", "pendingErase", "suppressReturn", "lockCallback", "copyGlobal", "callGlobal", "lockObserver", "observersFind", "observersCopy", "obsIndexErase", "observersErase", "forObservers", "callObserver", "lockSync", "tombstone", "lockUserData", "dataFind", "dataErase", "cleanupGuard", "callCleanup"]
+/-- order (and locks) of Transport::Impl's close handler: connectSync suppression, THEN the syncMutex block that marks the session
+closed (closed flag / tombstone, readModes.erase - `Deliver.closeMark`; repair FC03c moved it in front of all user code), global
+callback, observers (copy, erase, iterate) (`Deliver.closeCbs` / `Fanout.closeFan`), user data -/
+def fanout : List String := ["lockSync", "pendingFind", "pendingErase", "suppressReturn", "lockSync", "tombstone", "lockCallback", "copyGlobal", "callGlobal", "lockObserver", "observersFind", "observersCopy", "obsIndexErase", "observersErase", "forObservers", "callObserver", "lockUserData", "dataFind", "dataErase", "cleanupGuard", "callCleanup"]
 def observe : List String := ["idAlloc", "lockObserver", "append", "index"]
 def unobserve : List String := ["lockObserver", "indexFind", "retFalse", "indexErase", "removeIf", "eraseEmpty", "retTrue"]
 def setSessionData : List String := ["lockUserData", "assign"]
 
-/-- step 6 of the Transport close handler as `Model/CloseDeliver.lean` (`markClosed`, `eraseMode`, `sweep`) mirrors it: under
+/-- TcpEngine::close / UdpEngine::close are ONE statement: the enqueue of a Close command for that id (`stepShared (.apiClose sid)` =
+`apiPlain (.close sid .app)`): an accepted request is queued FIFO behind everything queued before it, whatever the session table says
+(seed C04-d answers `true` without queueing for an id that is not registered yet) -/
+def tcpClose : List String := ["0:returnenqueue(Command::close(sid));"]
+def udpClose : List String := ["0:returnenqueue(Cmd::close(sid));"]
+/-- `CloseOrigin` enumerator of an `Origin` -/
+def originName : Origin → String
+  | .app => "App" | .connectTimeout => "ConnectTimeout" | .handshakeTimeout => "HandshakeTimeout" | .writeStall => "WriteStall"
+/-- the three handlers the TimerService thread runs are exactly `enqueue(Command::close(sid, err, msg, origin))` - the model's
+`In.timer sid o` = `apiPlain (.close sid o)`: no callback, no table access on that thread (seed C05-d folds them into a helper that
+calls err()) -/
+def tcpTimerHandlers : List (String × String × String) :=
+  [("handleConnectTimeout", originName .connectTimeout, "Timeout"), ("handleHandshakeTimeout", originName .handshakeTimeout, "TLSHandshake"),
+   ("handleWriteStallTimeout", originName .writeStall, "Timeout")]
+/-- start() as `apiStart` mirrors it: the `_running` CAS (a running engine refuses), fresh epoll/eventfd/timerfd, the command queue
+is re-opened - on tcp since repair FC05c in ONE `_cmdMutex` section together with the publication of the fresh `_eventFd` (until then
+the queue stays closed: a stale timer close of the previous run is refused) -, a new I/O thread; the session maps and the id counter are NOT touched (no token `mapsTouched` / `idCounter`) -/
+def tcpStart : List String := ["runningCas", "retAlreadyRunning", "initTls", "epollCreate", "eventfd", "lockCmd", "publishEventFd", "queueOpen", "timerfd", "ioThread", "retOk"]
+def udpStart : List String := ["runningCas", "retAlreadyRunning", "queueOpen", "epollCreate", "eventfd", "timerfd", "ioThread", "retOk"]
+
+/-- the syncMutex block of the Transport close handler ("step 6" before repair FC03c, step 2 since) as `Model/CloseDeliver.lean`
+(`closeMark` = `markClosed`, `eraseMode`, `sweep`) mirrors it: under
 syncMutex, close the buffer (and wake its waiters) or insert a closed tombstone; erase the read mode UNCONDITIONALLY (depth 0);
 sweep every other closed, drained, unparked, unflushed entry once the map is over the threshold -/
 def closeStep6 : List String := [
@@ -163,7 +186,7 @@ def closeStep6 : List String := [
   "0:conststd::size_tgcThreshold=config.syncBufferGcThreshold;",
   "0:if(receiveBuffers.size()>gcThreshold)",
   "1:for(autoit=receiveBuffers.begin();it!=receiveBuffers.end();)",
-  "2:if(it->first!=sid&&it->second->closed&&!it->second->hasData&&it->second->waiters==0&&!it->second->flushing)",
+  "2:if(it->first!=sid&&it->second->closed&&!it->second->hasData&&it->second->waiters==0&&!it->second->flushing&&(!it->second->overflow||it->second->overflowReported))",
   "3:it=receiveBuffers.erase(it);",
   "2:else",
   "3:++it;"]
